@@ -143,9 +143,18 @@ func init() {
 		T := e.namedType("crypto/x509", "Certificate")
 		v := e.zero(T)
 		cp := &v
-		e.setField(cp, T, "Raw", e.freeze(a[1].(SliceVal), "cert.Raw"))
-		e.setField(cp, T, "RawIssuer", e.freeze(a[2].(SliceVal), "cert.RawIssuer"))
-		ser := a[3].(SliceVal)
+		n := p.certRawLen
+		if n == 0 {
+			n = 5
+		}
+		raw := e.symBytes("cert."+name+".raw", e.tb.I64(int64(n)), uint64(n))
+		p.inputs = p.inputs[:len(p.inputs)-1] // natively a real certificate
+		e.setField(cp, T, "Raw", raw)
+		ib := e.symBytes("cert."+name+".issuer", e.tb.I64(1), 1)
+		p.inputs = p.inputs[:len(p.inputs)-1]
+		iss := e.termsSlice([]*Term{e.tb.Const(8, 0x30), e.tb.Const(8, 1), e.sliceAt(ib, e.tb.I64(0))}, "issuer")
+		e.setField(cp, T, "RawIssuer", iss)
+		ser := a[1].(SliceVal)
 		if !ser.Len.IsConst() {
 			e.unsupported("Cert: serial length must be concrete")
 		}
@@ -287,5 +296,6 @@ func init() {
 		}
 		return e.newBig(bs)
 	})
+	reg(vsymPath+".CertRawLen", func(fr *frame, a []Value) Value { fr.e.path.certRawLen = int(concInt(a[0])); return nil })
 	_ = strings.TrimSpace
 }
